@@ -32,7 +32,7 @@ LuLemma ==
        /\ \A j \in 1 .. Min(m, n) : S.piv[j] = I.ipiv[j]
 
 SolveLemma ==
-  Fam \in {"lu", "chol"} =>
+  Fam \in {"lu", "chol", "pb"} =>
     LET n == I.n
         A == Z0(I.A, I.m, n)
         X == Z0(I.X, n, I.R)
@@ -56,7 +56,7 @@ CholFrom(A, L, j, n) ==
                           IF c # j THEN L[i][c] ELSE IF i = j THEN s ELSE IF i > j THEN num(i) \div s ELSE 0])]), j + 1, n)
 
 CholLemma ==
-  Fam = "chol" =>
+  Fam \in {"chol", "pb"} =>
     LET n == I.n
         A == Z0(I.A, n, n)
         S == CholFrom(A, Mat(n, n, LAMBDA i, j : 0), 0, n)
@@ -83,6 +83,109 @@ QrLemma ==
             /\ I.CQ[j + 1][i + 1] = SumR(LAMBDA t : CR[j][t] * Q[t][i], 0, m - 1)
             /\ I.CQT[j + 1][i + 1] = SumR(LAMBDA t : CR[j][t] * Q[i][t], 0, m - 1)
        /\ \A i \in 0 .. m - 1 : Q[i][I.qidx[i + 1]] # 0
+
+\* column pivoting is forced: at every free step t the pivot column strictly dominates (with
+\* margin) every later column in the norm of its rows t.., the fixed columns lead in ascending
+\* order, jpvt is a permutation and A*P0 = Q0*R0 with Q0 orthogonal
+PivotLemma ==
+  Fam = "qp3" =>
+    LET m == I.m
+        n == I.n
+        k == I.k
+        nf == I.nf
+        Q == Z0(I.Q, m, m)
+        R == Z0(I.RR, k, n)
+        A == Z0(I.A, m, n)
+        jp == I.jpvt
+    IN /\ {jp[j] : j \in 1 .. n} = 0 .. n - 1
+       /\ \A j \in 1 .. n : (j <= nf) = (I.jin[jp[j] + 1] = 0)
+       /\ \A j \in 1 .. nf - 1 : jp[j] < jp[j + 1]
+       /\ \A a, b \in 0 .. m - 1 : SumR(LAMBDA r : Q[r][a] * Q[r][b], 0, m - 1) = (IF a = b THEN 1 ELSE 0)
+       /\ \A t \in 0 .. k - 1 : (R[t][t] # 0 /\ \A c \in 0 .. t - 1 : R[t][c] = 0)
+       /\ \A i \in 0 .. m - 1, c \in 0 .. n - 1 : A[i][jp[c + 1]] = SumR(LAMBDA t : Q[i][t] * R[t][c], 0, k - 1)
+       /\ \A t \in nf .. k - 1 : \A c \in t + 1 .. n - 1 :
+              R[t][t] * R[t][t] >= 12 + SumR(LAMBDA i : R[i][c] * R[i][c], t, k - 1)
+
+\* planted inverses: T * Tinv = I, A * Ainv = I, T * (A_chol^{-1}) * T^T = I (scaled integers),
+\* and the reference elimination on A = P0^T L T returns exactly the printed packed factors
+MMulR(X, Y, n) == Mat(n, n, LAMBDA i, j : SumR(LAMBDA t : X[i][t] * Y[t][j], 0, n - 1))
+Scal(n, c) == Mat(n, n, LAMBDA i, j : IF i = j THEN c ELSE 0)
+InverseLemma ==
+  Fam = "tri" =>
+    LET n == I.n
+        T == Z0(I.T, n, n)
+        Ti == Z0(I.Inv, n, n)
+    IN /\ \A i \in 0 .. n - 1 : \A j \in 0 .. i - 1 : T[i][j] = 0 /\ Ti[i][j] = 0
+       /\ I.unit => \A i \in 0 .. n - 1 : T[i][i] = 1
+       /\ I.ok => MMulR(T, Ti, n) = Scal(n, 4)
+       /\ ~I.ok => T[I.kz][I.kz] = 0
+       /\ I.deep =>
+            LET A2 == Z0(I.A, n, n)
+                AI == Z0(I.AI, n, n)
+                PI == Z0(I.PI, n, n)
+                Tt == Mat(n, n, LAMBDA i, j : T[j][i])
+                S == Getf2(RatOf(I.A, n, n, 2), 0, 0, n, n)
+            IN /\ MMulR(A2, AI, n) = Scal(n, 16)
+               /\ MMulR(MMulR(T, PI, n), Tt, n) = Scal(n, 16)
+               /\ \A i \in 0 .. n - 1 : T[i][i] > 0
+               /\ S.A = RatOf(I.LU, n, n, 2) /\ S.ok
+               /\ \A j \in 1 .. n : S.piv[j] = I.ipiv[j]
+
+\* least squares: normal equations and range / null-space conditions for the planted answers
+LsLemma ==
+  Fam = "ls" =>
+    LET m == I.m
+        n == I.n
+        R == I.R
+        A == Z0(I.A, m, n)
+        Q == Z0(I.Q, m, m)
+        X0 == Z0(I.X, n, R)
+        B == Z0(I.B, m, R)
+        XM == Z0(I.XMN, m, R)
+        BM == Z0(I.BMN, n, R)
+        Res(i, j) == SumR(LAMBDA c : A[i][c] * X0[c][j], 0, n - 1) - B[i][j]
+    IN /\ \A a, b \in 0 .. m - 1 : SumR(LAMBDA r : Q[r][a] * Q[r][b], 0, m - 1) = (IF a = b THEN 1 ELSE 0)
+       \* range(A) = span of the first n columns of Q (when A has full rank): Q2^T A = 0
+       /\ \A t \in n .. m - 1, c \in 0 .. n - 1 : SumR(LAMBDA i : Q[i][t] * A[i][c], 0, m - 1) = 0
+       \* A^T (A X0 - BLS) = 0
+       /\ \A c \in 0 .. n - 1, j \in 0 .. R - 1 : SumR(LAMBDA i : A[i][c] * Res(i, j), 0, m - 1) = 0
+       \* A^T XMN = BMN and XMN orthogonal to the null space of A^T (= span Q2)
+       /\ \A c \in 0 .. n - 1, j \in 0 .. R - 1 : SumR(LAMBDA i : A[i][c] * XM[i][j], 0, m - 1) = BM[c][j]
+       /\ \A t \in n .. m - 1, j \in 0 .. R - 1 : SumR(LAMBDA i : Q[i][t] * XM[i][j], 0, m - 1) = 0
+       \* full column rank (variant 0): Q1^T A = R0 is upper triangular with non-zero diagonal
+       /\ \A t \in 0 .. n - 1 : \A c \in 0 .. n - 1 :
+            LET r == SumR(LAMBDA i : Q[i][t] * A[i][c], 0, m - 1)
+            IN (c < t => r = 0) /\ (c = t => ((r # 0) = (t # I.kz)))
+
+\* tridiagonal: the exact L*D*L^T recurrence on the planted (pd, pe) returns (D, l) or breaks
+\* down exactly at the planted index; the general system is non-singular (all u_i # 0 are
+\* implied by gd/gdl/gdu being S*L*U) and B = A*X0 by the defining tridiagonal product
+RECURSIVE PtFrom(_, _, _, _, _)
+PtFrom(d, e, Dv, lv, i) ==       \* sequences (1-based); returns <<D, l, fail>>
+  IF i > Len(d) THEN <<Dv, lv, -1>>
+  ELSE LET Di == IF i = 1 THEN d[1] ELSE d[i] - lv[i - 1] * e[i - 1]
+       IN IF Di <= 0 THEN <<Dv, lv, i - 1>>
+          ELSE IF i = Len(d) THEN <<Append(Dv, Di), lv, -1>>
+          ELSE IF e[i] % Di # 0 THEN <<Dv, lv, -2>>
+          ELSE PtFrom(d, e, Append(Dv, Di), Append(lv, e[i] \div Di), i + 1)
+TdLemma ==
+  Fam = "td" =>
+    LET S == PtFrom(I.pd, I.pe, <<>>, <<>>, 1)
+    IN IF I.ok THEN S[3] = -1 /\ S[1] = I.D /\ S[2] = I.l ELSE S[3] = I.kbad
+
+AuxLemma ==
+  Fam = "aux" =>
+    LET J == TLCEval(I)      \* evaluate the instance once
+        m == J.m
+        n == J.n
+    IN /\ {J.kc[j] : j \in 1 .. n} = 0 .. n - 1
+       /\ {J.kr[i] : i \in 1 .. m} = 0 .. m - 1
+       \* backward undoes forward
+       /\ \A i \in 1 .. m, j \in 1 .. n : J.pcF[i][j] = J.A[i][J.kc[j] + 1] /\ J.pcB[i][J.kc[j] + 1] = J.A[i][j]
+       /\ \A i \in 1 .. m, j \in 1 .. n : J.prF[i][j] = J.A[J.kr[i] + 1][j] /\ J.prB[J.kr[i] + 1][j] = J.A[i][j]
+       /\ J.k2 >= J.k1 - 1 /\ \A k \in 1 .. J.k2 + 1 : J.ipiv[k] >= 0 /\ J.ipiv[k] < Max(m, 1)
+       \* norms: max <= one-norm, max <= inf-norm
+       /\ J.nge[1] <= J.nge[2] /\ J.nge[1] <= J.nge[3]
 
 \* n x n integer matrices
 MMul(X, Y, n) == Mat(n, n, LAMBDA i, j : SumR(LAMBDA t : X[i][t] * Y[t][j], 0, n - 1))
